@@ -1112,16 +1112,20 @@ def scenario_campaign(ch, tr, st):
             ev = finished[ch.draw(len(finished), "which_event")]
             op_split_merge(M, ch, tr, st, ev)
             ops.append(f"split_merge {ev.name}")
+            check_event(M, st, ev, tr)  # a read-only operation: the event is as it was
         elif kind == "calc_ext":
             ev = finished[ch.draw(len(finished), "which_event")]
             op_calc_ext(M, ch, tr, st, ev)
             ops.append(f"calc_ext {ev.name}")
+            check_event(M, st, ev, tr)
         elif kind == "checkpoint":
             ev = started[ch.draw(len(started), "which_event")]
             with fs.mounted(M), _Sut("cla.save(event results)"):
                 cla.save(f"{ev.name}.p", ev.res)
             ev.ckpt = list(ev.done)
             ev.ckpt_nsolved = getattr(ev, "nsolved", 0)
+            if ev.done:
+                check_event(M, st, ev, tr)  # saving leaves the live results alone
             ops.append(f"checkpoint {ev.name} after {len(ev.done)} cases")
             tr.shape("checkpoint", ev.idx, len(ev.done))
             st.fault("checkpoint_saved")
